@@ -674,3 +674,61 @@ def gen_history(rng, tier):
         step["edits"] = edits
         steps.append(step)
     return {"kind": "history", "tz": tz, "steps": steps, "gen_features": sorted(feats)}
+
+
+def targeted_histories():
+    """deterministic histories: every class of state that could be left between two calls, for every layout"""
+    import random
+
+    def step(slot, d, call, mtime="kept", edits=(), seed=0):
+        n = sum(e["role"] == "line" for e in d["entries"]) if d else 0
+        st = {"slot": slot, "call": call, "pi": list(reversed(range(n))), "edits": list(edits)}
+        if d is not None:
+            st["dir"], st["mtime"] = d, mtime
+        return st
+
+    def hist(steps, feats):
+        for st, prev in zip(steps, [None] + steps):  # "pi" of a step without "dir": the directory of the step before
+            if "dir" not in st and prev is not None:
+                st["pi"] = list(prev["pi"])
+        return {"kind": "history", "tz": "UTC", "steps": steps, "gen_features": sorted(feats)}
+
+    for v1 in VENDORS:
+        rng = random.Random(f"C04-th-{v1}")
+        d1, _ = make_dir(rng, v1, "UTC", n=3)
+        el = dir_elements(d1)
+        names = [e["name"] for e in d1["entries"] if e["role"] == "line"]
+        # the same path rewritten in every other layout, module-level defaults only (no option passed)
+        for v2 in VENDORS:
+            if v2 != v1:
+                d2, _ = make_dir(rng, v2, "UTC", n=2, elements=el[:1] + ["Zn66"])
+                for mt in ("kept", "natural"):
+                    yield hist([step("lines", d1, "auto", mt), step("lines", d2, "auto", mt)],
+                               ["hist:same-path:other-vendor", "targeted-history"])
+        # the same file names: another header; the same header with other values and lengths; one line more
+        el2 = (el[1:] + ["Ca44"]) if len(el) > 1 else ["Ca44"] + el
+        d3, _ = make_dir(rng, v1, "UTC", names=list(names), elements=el2, nancols=[])
+        d4, _ = make_dir(rng, v1, "UTC", names=list(names), elements=list(el), nancols=[])
+        d5, _ = make_dir(rng, v1, "UTC", n=4, elements=list(el), nancols=[])
+        for call in ("auto", "shared", "detected"):
+            yield hist([step("lines", d1, call), step("lines", d3, call), step("lines", d4, call), step("lines", d5, call)],
+                       ["hist:same-path:same-names-other-header", "hist:same-path:same-names-other-values",
+                        "hist:same-path:other-line-count", "targeted-history"])
+        # the directory left as it is, the caller edits what the first call returned
+        yield hist([step("lines", d1, "auto", edits=["image", "params"]), step("lines", None, "auto"),
+                    step("lines", None, "shared", edits=["image", "params"]), step("lines", None, "shared")],
+                   ["hist:unchanged-reimport", "targeted-history"])
+        # the caller edits its own option instance, later calls use other instances / none
+        yield hist([step("lines", d1, "fresh", edits=["own-option"]), step("lines", None, "fresh"), step("b", d3, "auto"),
+                    step("b", None, "shared", edits=["own-option"]), step("lines", None, "shared")],
+                   ["targeted-history"])
+        # the caller edits the object option_for_path returned (recorded only when a later call sees it)
+        yield hist([step("lines", d1, "detected", edits=["library-option"]), step("lines", None, "auto"), step("b", d3, "detected")],
+                   ["targeted-history"])
+        # an element column empty in every line, then the same element with data (and the other way round)
+        if el:
+            d6, _ = make_dir(rng, v1, "UTC", n=2, elements=list(el), nancols=list(range(len(el))))
+            d7, _ = make_dir(rng, v1, "UTC", n=2, elements=list(el), nancols=[])
+            for call in ("auto", "shared", "detected", "fresh"):
+                yield hist([step("lines", d6, call), step("b", d7, call), step("lines", None, call)],
+                           ["hist:nan-element-then-data", "targeted-history"])
